@@ -9,7 +9,11 @@
      - util.validate_frequencies(allow_negatives=False) accepts negative frequencies        (frequencies_..._refuted)
      - multipitch.validate inherits it                                                       (multipitch_..._refuted)
      - hierarchy.validate_hier_intervals never looks at a single-level hierarchy             (hierarchy_..._refuted)
-     - separation.validate raises numpy's AxisError, not ValueError, on a non-empty 1-d array (separation_..._refuted) *)
+     - separation.validate raises numpy's AxisError, not ValueError, on a non-empty 1-d array (separation_..._refuted)
+     - 0-d arrays are rejected with TypeError (len(): segment.validate_boundary, hierarchy.validate_hier_intervals) or IndexError
+       (.shape[0]: melody.validate_voicing / validate, transcription.validate, transcription_velocity.validate), not ValueError
+       (validate_boundary_0d_raises_TypeError, boundary_raises_ValueError_refuted, validate_hier_0d_raises_TypeError,
+        hierarchy_raises_ValueError_refuted, notes_0d / velocities_0d / voicing_0d / melody_0d_raises_IndexError, *_raise_kind) *)
 From Coq Require Import List Bool Arith ZArith QArith Qabs Qminmax Lia Lqa Sorted.
 From ME Require Import Model.Prelude Model.Regex Model.ChordParse Model.Validators Gen.ChordRe Gen.KeyTable.
 From ME Require Import Proofs.RegexLang Proofs.ChordRegex.
@@ -339,11 +343,62 @@ Proof. intros. unfold events_validate_arr, conv_event_pair. rewrite bind_ok, !ev
 Theorem event_pair_raises_ValueError : forall ref est e, events_validate_arr ref est = Raise e -> e = ValueError.
 Proof. intros ref est. unfold events_validate_arr. apply only_VE_bind; [exact (events_raises_ValueError _ ref)|exact (events_raises_ValueError _ est)]. Qed.
 
+(* len(a) / a.shape[0] of a sized array; an n-by-2 array is sized *)
+Lemma arr_len_sized a : shape a <> [] -> arr_len a = Ok (shape0 a).
+Proof. unfold arr_len, shape0. destruct (shape a); [congruence|reflexivity]. Qed.
+Lemma arr_len_0d a : shape a = [] -> arr_len a = Raise TypeError.
+Proof. unfold arr_len. now intros ->. Qed.
+Lemma arr_shape0_sized a : shape a <> [] -> arr_shape0 a = Ok (shape0 a).
+Proof. unfold arr_shape0, shape0. destruct (shape a); [congruence|reflexivity]. Qed.
+Lemma arr_shape0_0d a : shape a = [] -> arr_shape0 a = Raise IndexError.
+Proof. unfold arr_shape0. now intros ->. Qed.
+Lemma n_by_2_sized a : is_n_by_2 a = true -> shape a <> [].
+Proof. unfold is_n_by_2. intros H E. rewrite E in H. cbn in H. now rewrite andb_false_r in H. Qed.
+Lemma conv_intervals_sized a : conv_intervals a = true -> shape a <> [].
+Proof. unfold conv_intervals. rewrite !andb_true_iff. intros [[H _] _]. now apply n_by_2_sized. Qed.
+Lemma validate_intervals_0d a : shape a = [] -> validate_intervals_arr a = Raise ValueError.
+Proof. intros E. apply intervals_not_n_by_2_rejected. destruct (is_n_by_2 a) eqn:H; [|reflexivity]. now apply n_by_2_sized in H. Qed.
+
+(* transcription.validate_intervals (no len()): ValueError only *)
+Theorem pair_iff_convention : forall ref est, validate_pair_arr ref est = Ok tt <-> conv_intervals ref && conv_intervals est = true.
+Proof. intros. unfold validate_pair_arr. rewrite bind_ok, !intervals_iff_convention, andb_true_iff. tauto. Qed.
+Theorem pair_raises_ValueError : forall ref est e, validate_pair_arr ref est = Raise e -> e = ValueError.
+Proof. intros ref est. unfold validate_pair_arr. apply only_VE_bind; [exact (intervals_raises_ValueError ref)|exact (intervals_raises_ValueError est)]. Qed.
+Lemma boundary_sized ref est : shape ref <> [] -> shape est <> [] -> validate_boundary_arr ref est = validate_pair_arr ref est.
+Proof. intros Hr He. unfold validate_boundary_arr. now rewrite (arr_len_sized _ Hr), (arr_len_sized _ He). Qed.
+
 Definition conv_boundary (ref est : arr) : bool := conv_intervals ref && conv_intervals est.
 Theorem boundary_iff_convention : forall ref est, validate_boundary_arr ref est = Ok tt <-> conv_boundary ref est = true.
-Proof. intros. unfold validate_boundary_arr, conv_boundary. rewrite bind_ok, !intervals_iff_convention, andb_true_iff. tauto. Qed.
-Theorem boundary_raises_ValueError : forall ref est e, validate_boundary_arr ref est = Raise e -> e = ValueError.
-Proof. intros ref est. unfold validate_boundary_arr. apply only_VE_bind; [exact (intervals_raises_ValueError ref)|exact (intervals_raises_ValueError est)]. Qed.
+Proof.
+  intros. unfold conv_boundary. rewrite <- pair_iff_convention. unfold validate_boundary_arr, arr_len.
+  destruct (shape ref) eqn:Er; cbn [bind].
+  - split; [discriminate|]. unfold validate_pair_arr. now rewrite (validate_intervals_0d ref Er).
+  - destruct (shape est) eqn:Ee; cbn [bind]; [|tauto].
+    split; [discriminate|]. unfold validate_pair_arr. rewrite (validate_intervals_0d est Ee). destruct (validate_intervals_arr ref) as [[]|]; discriminate.
+Qed.
+(* segment.validate_boundary takes len() of both arrays before validating them: on a 0-d array (which the convention
+   excludes) the exception is TypeError, not ValueError; on sized arrays every rejection is a ValueError *)
+Theorem boundary_raises_ValueError : forall ref est e, shape ref <> [] -> shape est <> [] ->
+  validate_boundary_arr ref est = Raise e -> e = ValueError.
+Proof. intros ref est e Hr He. rewrite (boundary_sized _ _ Hr He). apply pair_raises_ValueError. Qed.
+Theorem boundary_raise_kind : forall ref est e, validate_boundary_arr ref est = Raise e ->
+  e = ValueError \/ (e = TypeError /\ (shape ref = [] \/ shape est = [])).
+Proof.
+  intros ref est e. unfold validate_boundary_arr, arr_len.
+  destruct (shape ref); cbn [bind]; [intros [= <-]; right; auto|].
+  destruct (shape est); cbn [bind]; [intros [= <-]; right; auto|]. intros H. left. eapply pair_raises_ValueError; eassumption.
+Qed.
+Theorem validate_boundary_0d_raises_TypeError : forall ref est, shape ref = [] \/ shape est = [] ->
+  validate_boundary_arr ref est = Raise TypeError.
+Proof.
+  intros ref est H. unfold validate_boundary_arr, arr_len. destruct (shape ref); [reflexivity|]. destruct H as [H|H]; [discriminate|].
+  now rewrite H.
+Qed.
+(* witness: segment.validate_boundary(np.array(3.0), np.array([[0., 1.]]), False) raises TypeError: len() of unsized object;
+   the 0-d array is malformed input, and it is NOT rejected with ValueError *)
+Theorem boundary_raises_ValueError_refuted : exists ref est,
+  wf_arr ref = true /\ wf_arr est = true /\ conv_intervals est = true /\ validate_boundary_arr ref est = Raise TypeError.
+Proof. exists (mkarr 0 [] [3]), (arr2 [(0, 1)]). repeat split; vm_compute; reflexivity. Qed.
 
 (* ------------------------------------------------------------------------------------------------------------ *)
 (* 8. segment.validate_structure                                                                                  *)
@@ -396,11 +451,15 @@ Proof. vm_compute. reflexivity. Qed.
 (*    docstring Raises: 'If any segmentation does not span the full duration of the top-level segmentation.         *)
 (*    If any segmentation does not start at 0.'                                                                     *)
 (* ------------------------------------------------------------------------------------------------------------ *)
-(* what the code enforces: every DEEPER level is consistent with the top level *)
+(* what the code enforces: the top level is a sized array (len() is taken of it) and every DEEPER level is consistent with
+   the top level *)
+Definition sized (a : arr) : bool := match shape a with [] => false | _ => true end.
+Lemma sized_iff a : sized a = true <-> shape a <> [].
+Proof. unfold sized. destruct (shape a); split; congruence. Qed.
 Definition conv_hierarchy (H : list arr) : bool :=
   match H with
   | [] => false
-  | top :: rest => forallb (fun l => conv_segmentation top (shape0 top) l (shape0 l)) rest
+  | top :: rest => sized top && forallb (fun l => conv_segmentation top (shape0 top) l (shape0 l)) rest
   end.
 (* the documented convention: EVERY level (the top one included) is a well-formed segmentation starting at 0, and all
    levels end with the top level *)
@@ -410,22 +469,56 @@ Definition conv_hierarchy_documented (H : list arr) : bool :=
   | top :: rest => conv_intervals top && starts_at_0 top &&
                    forallb (fun l => conv_intervals l && starts_at_0 l && end_together top l) rest
   end.
+Lemma conv_segmentation_sized top n l m : conv_segmentation top n l m = true -> shape l <> [].
+Proof. unfold conv_segmentation, conv_labeled. rewrite !andb_true_iff. intros [[_ [[H _] _]] _]. now apply conv_intervals_sized. Qed.
 Lemma validate_levels_iff top rest :
   validate_levels_arr top rest = Ok tt <-> forallb (fun l => conv_segmentation top (shape0 top) l (shape0 l)) rest = true.
 Proof.
-  induction rest as [|l t IH]; cbn; [tauto|]. rewrite bind_ok, IH, segmentation_iff_convention, andb_true_iff. tauto.
+  induction rest as [|l t IH]; cbn [validate_levels_arr forallb]; [tauto|]. rewrite andb_true_iff, <- IH.
+  destruct (shape l) eqn:E.
+  - rewrite (arr_len_0d l E). cbn [bind]. split; [discriminate|]. intros [H _]. apply conv_segmentation_sized in H. congruence.
+  - assert (S : shape l <> []) by congruence. rewrite (arr_len_sized l S). cbn [bind]. rewrite bind_ok, segmentation_iff_convention. tauto.
 Qed.
 Theorem hierarchy_iff_convention : forall H, validate_hier_arr H = Ok tt <-> conv_hierarchy H = true.
-Proof. intros [|top rest]; cbn; [split; discriminate|apply validate_levels_iff]. Qed.
-Theorem hierarchy_raise_kind : forall H e, validate_hier_arr H = Raise e -> e = ValueError \/ (e = IndexError /\ H = []).
 Proof.
-  intros [|top rest] e; cbn; intros Hr; [right; split; congruence|left]. revert Hr.
-  induction rest as [|l t IH]; cbn; [discriminate|]. intros Hr. apply bind_raise in Hr. destruct Hr as [Hr|[_ Hr]]; [|auto].
-  eapply segmentation_raises_ValueError; eassumption.
+  intros [|top rest]; cbn [validate_hier_arr conv_hierarchy]; [split; discriminate|].
+  rewrite andb_true_iff, <- validate_levels_iff. unfold arr_len, sized. destruct (shape top); cbn [bind]; [split; [discriminate|intros [? _]; discriminate]|tauto].
 Qed.
-(* a single-level hierarchy is never examined ... *)
-Theorem hierarchy_single_level_not_validated : forall a, validate_hier_arr [a] = Ok tt.
-Proof. reflexivity. Qed.
+(* kinds of rejection: ValueError; IndexError for an empty list; TypeError when some level is a 0-d array *)
+Theorem hierarchy_raise_kind : forall H e, validate_hier_arr H = Raise e ->
+  e = ValueError \/ (e = IndexError /\ H = []) \/ (e = TypeError /\ exists a, In a H /\ shape a = []).
+Proof.
+  intros [|top rest] e; cbn [validate_hier_arr]; intros Hr; [right; left; split; congruence|].
+  unfold arr_len in Hr at 1. destruct (shape top) as [|n0 s0] eqn:Et; cbn [bind] in Hr.
+  { injection Hr as <-. right; right. split; [reflexivity|]. exists top. split; [left; reflexivity|exact Et]. }
+  clear Et. assert (G : e = ValueError \/ (e = TypeError /\ exists a, In a rest /\ shape a = [])).
+  { revert Hr. induction rest as [|l t IH]; cbn [validate_levels_arr]; [discriminate|]. intros Hr.
+    unfold arr_len in Hr at 1. destruct (shape l) as [|n1 s1] eqn:El; cbn [bind] in Hr.
+    - injection Hr as <-. right. split; [reflexivity|]. exists l. split; [left; reflexivity|exact El].
+    - apply bind_raise in Hr. destruct Hr as [Hr|[_ Hr]].
+      + left. eapply segmentation_raises_ValueError; eassumption.
+      + destruct (IH Hr) as [G|[G (a & Ia & Sa)]]; [left; exact G|right]. split; [exact G|]. exists a. split; [right; exact Ia|exact Sa]. }
+  destruct G as [G|[G (a & Ia & Sa)]]; [left; exact G|right; right]. split; [exact G|]. exists a. split; [right; exact Ia|exact Sa].
+Qed.
+Theorem hierarchy_raises_ValueError_sized : forall H e, H <> [] -> Forall (fun a => shape a <> []) H ->
+  validate_hier_arr H = Raise e -> e = ValueError.
+Proof.
+  intros H e Hn Hs Hr. apply hierarchy_raise_kind in Hr. destruct Hr as [Hr|[[_ Hr]|[_ (a & Ia & Sa)]]]; [exact Hr|congruence|].
+  rewrite Forall_forall in Hs. now apply Hs in Ia.
+Qed.
+(* a single-level hierarchy is never examined beyond len() of its only level ... *)
+Theorem hierarchy_single_level_not_validated : forall a, shape a <> [] -> validate_hier_arr [a] = Ok tt.
+Proof. intros a Ha. cbn [validate_hier_arr]. rewrite (arr_len_sized _ Ha). reflexivity. Qed.
+(* ... and a 0-d array anywhere in the list is rejected with TypeError (from len() in util.generate_labels), not ValueError,
+   unless an earlier level was already rejected: hierarchy.validate_hier_intervals([np.array(3.0)]) raises
+   TypeError: len() of unsized object *)
+Theorem validate_hier_0d_raises_TypeError : forall top rest, shape top = [] -> validate_hier_arr (top :: rest) = Raise TypeError.
+Proof. intros top rest E. cbn [validate_hier_arr]. now rewrite (arr_len_0d _ E). Qed.
+Theorem validate_hier_level_0d_raises_TypeError : forall top l rest, shape top <> [] -> shape l = [] ->
+  validate_hier_arr (top :: l :: rest) = Raise TypeError.
+Proof. intros top l rest Ht El. cbn [validate_hier_arr validate_levels_arr]. now rewrite (arr_len_sized _ Ht), (arr_len_0d _ El). Qed.
+Theorem hierarchy_raises_ValueError_refuted : exists H, Forall (fun a => wf_arr a = true) H /\ validate_hier_arr H = Raise TypeError.
+Proof. exists [mkarr 0 [] [3]]. split; [repeat constructor|reflexivity]. Qed.
 (* ... so the documented convention is NOT what is enforced: a one-level 'hierarchy' with a zero-duration segment that
    does not start at 0 (even one that is not n-by-2) passes *)
 Theorem hierarchy_iff_documented_refuted : exists H,
@@ -437,8 +530,9 @@ Lemma conv_labeled_self a : conv_labeled a (shape0 a) = conv_intervals a && star
 Proof. unfold conv_labeled. rewrite Nat.eqb_refl, andb_true_r. reflexivity. Qed.
 Theorem hierarchy_documented_accepted : forall H, conv_hierarchy_documented H = true -> validate_hier_arr H = Ok tt.
 Proof.
-  intros [|top rest]; cbn; [discriminate|]. intros Hc. apply validate_levels_iff.
-  rewrite !andb_true_iff in Hc. destruct Hc as [[Ht Hs] Hr]. rewrite forallb_forall in *. intros l Hin. specialize (Hr l Hin).
+  intros [|top rest]; cbn [conv_hierarchy_documented]; [discriminate|]. intros Hc. apply hierarchy_iff_convention. cbn [conv_hierarchy].
+  rewrite !andb_true_iff in Hc. destruct Hc as [[Ht Hs] Hr]. rewrite andb_true_iff. split; [apply sized_iff, conv_intervals_sized, Ht|].
+  rewrite forallb_forall in *. intros l Hin. specialize (Hr l Hin).
   rewrite !andb_true_iff in Hr. destruct Hr as [[Hl Hls] He]. unfold conv_segmentation. rewrite !conv_labeled_self, Ht, Hs, Hl, Hls, He.
   reflexivity.
 Qed.
@@ -446,6 +540,7 @@ Theorem hierarchy_two_levels_iff_documented : forall top l rest,
   validate_hier_arr (top :: l :: rest) = Ok tt <-> conv_hierarchy_documented (top :: l :: rest) = true.
 Proof.
   intros top l rest. split; [|apply hierarchy_documented_accepted]. intros Hv. apply hierarchy_iff_convention in Hv.
+  cbn [conv_hierarchy] in Hv. rewrite andb_true_iff in Hv. destruct Hv as [_ Hv].
   cbn in Hv |- *. rewrite andb_true_iff in Hv. destruct Hv as [H1 H2]. unfold conv_segmentation in H1.
   rewrite !conv_labeled_self, !andb_true_iff in H1. destruct H1 as [[[Ht Hs] [Hl Hls]] He]. rewrite Ht, Hs, Hl, Hls, He. cbn.
   rewrite forallb_forall in *. intros x Hin. specialize (H2 x Hin). unfold conv_segmentation in H2.
@@ -625,7 +720,7 @@ Theorem EventMetrics_validate_boundary_iff_convention : forall r e,
   EM.validate_boundary r e = Ok tt <-> conv_ivs r && conv_ivs e = true.
 Proof. intros. rewrite em_validate_boundary_arr, boundary_iff_convention. unfold conv_boundary. rewrite !conv_intervals_arr2. tauto. Qed.
 Theorem EventMetrics_validate_boundary_raises_ValueError : forall r e x, EM.validate_boundary r e = Raise x -> x = ValueError.
-Proof. intros r e x. rewrite em_validate_boundary_arr. apply boundary_raises_ValueError. Qed.
+Proof. intros r e x. rewrite em_validate_boundary_arr. apply boundary_raises_ValueError; discriminate. Qed.
 
 (* ---------------------------------------------------------------- SegmentCluster.validate_structure *)
 Lemma sc_validate_one_arr iv n : SC.validate_one iv n = validate_one_arr (arr2 iv) n.
@@ -671,8 +766,10 @@ Theorem Hierarchy_validate_hier_iff_convention : forall H, HI.validate_hier H = 
 Proof. intros. rewrite hi_validate_hier_arr. apply hierarchy_iff_convention. Qed.
 Theorem Hierarchy_validate_hier_raise_kind : forall H e, HI.validate_hier H = Raise e -> e = ValueError \/ (e = IndexError /\ H = []).
 Proof.
-  intros H e. rewrite hi_validate_hier_arr. intros Hr. apply hierarchy_raise_kind in Hr. destruct Hr as [Hr|[Hr Hn]]; [auto|right].
-  split; [exact Hr|]. destruct H; [reflexivity|discriminate].
+  intros H e. rewrite hi_validate_hier_arr. intros Hr. apply hierarchy_raise_kind in Hr.
+  destruct Hr as [Hr|[[Hr Hn]|[_ (a & Ia & Sa)]]]; [auto|right|exfalso].
+  - split; [exact Hr|]. destruct H; [reflexivity|discriminate].
+  - apply in_map_iff in Ia. destruct Ia as (x & <- & _). discriminate.
 Qed.
 Theorem Hierarchy_single_level_not_validated : forall top, HI.validate_hier [top] = Ok tt.
 Proof. reflexivity. Qed.
@@ -1001,3 +1098,80 @@ Proof.
     (destruct rs as [|r0 rt]; [cbn in RE, RL; try discriminate|]); (destruct es as [|e0 et]; [cbn in EE, EL; try discriminate|]);
     destruct ((mx <? e0) || (mx <? r0))%nat; congruence.
 Qed.
+
+(* ------------------------------------------------------------------------------------------------------------ *)
+(* Part 3: pitch / velocity / voicing / frequency arrays OF ANY SHAPE (transcription_validate_nd, velocity_validate_nd,  *)
+(* melody_validate_voicing_nd, melody_validate_nd).  On 1-d arrays they are the models above; on a 0-d array the code    *)
+(* reads `.shape[0]` of an empty shape tuple and raises IndexError, not ValueError.                                       *)
+(* ------------------------------------------------------------------------------------------------------------ *)
+Lemma notes_nd_arr1 ri rp ei ep : transcription_validate_nd ri (arr1 rp) ei (arr1 ep) = transcription_validate_arr ri rp ei ep.
+Proof. reflexivity. Qed.
+Lemma velocities_nd_arr1 ri rp rv ei ep ev :
+  velocity_validate_nd ri (arr1 rp) (arr1 rv) ei (arr1 ep) (arr1 ev) = velocity_validate_arr ri rp rv ei ep ev.
+Proof. reflexivity. Qed.
+Lemma voicing_nd_arr1 rv ev : melody_validate_voicing_nd (arr1 rv) (arr1 ev) = ML.validate_voicing rv ev.
+Proof.
+  unfold melody_validate_voicing_nd, ML.validate_voicing, ML.voicing_bad. cbn [arr_shape0 arr1 shape data bind].
+  change voicing_out_of_range with (fun x => qltb x 0 || qltb 1 x).
+  destruct (length rv =? length ev)%nat; cbn [negb]; [|reflexivity]. destruct (existsb _ rv); reflexivity.
+Qed.
+Lemma melody_nd_arr1 rv rc ev ec : melody_validate_nd (arr1 rv) (arr1 rc) (arr1 ev) (arr1 ec) = ML.validate rv rc ev ec.
+Proof.
+  unfold melody_validate_nd, ML.validate. cbn [arr_shape0 arr1 shape bind].
+  destruct (length rv =? length rc)%nat, (length ev =? length ec)%nat, (length rc =? length ec)%nat; reflexivity.
+Qed.
+
+Theorem notes_nd_raise_kind : forall ri rp ei ep e, transcription_validate_nd ri rp ei ep = Raise e ->
+  e = ValueError \/ (e = IndexError /\ (shape rp = [] \/ shape ep = [])).
+Proof.
+  intros ri rp ei ep e. unfold transcription_validate_nd, arr_shape0.
+  destruct (validate_intervals_arr ri) as [[]|x] eqn:V1; cbn [bind]; [|intros [= <-]; left; eapply intervals_raises_ValueError; eassumption].
+  destruct (validate_intervals_arr ei) as [[]|x] eqn:V2; cbn [bind]; [|intros [= <-]; left; eapply intervals_raises_ValueError; eassumption].
+  destruct (shape rp); cbn [bind]; [intros [= <-]; right; auto|].
+  destruct (negb _); [intros [= <-]; left; reflexivity|].
+  destruct (shape ep); cbn [bind]; [intros [= <-]; right; auto|].
+  repeat (destruct (_ : bool); [intros [= <-]; left; reflexivity|]). discriminate.
+Qed.
+Theorem velocities_nd_raise_kind : forall ri rp rv ei ep ev e, velocity_validate_nd ri rp rv ei ep ev = Raise e ->
+  e = ValueError \/ (e = IndexError /\ (shape rp = [] \/ shape ep = [] \/ shape rv = [] \/ shape ev = [])).
+Proof.
+  intros ri rp rv ei ep ev e. unfold velocity_validate_nd.
+  destruct (transcription_validate_nd ri rp ei ep) as [[]|x] eqn:V; cbn [bind].
+  - unfold arr_shape0. destruct (shape rv); cbn [bind]; [intros [= <-]; right; auto|].
+    destruct (negb _); [intros [= <-]; left; reflexivity|].
+    destruct (shape ev); cbn [bind]; [intros [= <-]; right; auto 6|].
+    repeat (destruct (_ : bool); [intros [= <-]; left; reflexivity|]). discriminate.
+  - intros [= <-]. apply notes_nd_raise_kind in V. destruct V as [V|[V [S|S]]]; [left; exact V|right; auto|right; auto].
+Qed.
+Theorem voicing_nd_raise_kind : forall rv ev e, melody_validate_voicing_nd rv ev = Raise e ->
+  e = ValueError \/ (e = IndexError /\ (shape rv = [] \/ shape ev = [])).
+Proof.
+  intros rv ev e. unfold melody_validate_voicing_nd, arr_shape0.
+  destruct (shape rv); cbn [bind]; [intros [= <-]; right; auto|]. destruct (shape ev); cbn [bind]; [intros [= <-]; right; auto|].
+  repeat (destruct (_ : bool); [intros [= <-]; left; reflexivity|]). discriminate.
+Qed.
+Theorem melody_nd_raise_kind : forall rv rc ev ec e, melody_validate_nd rv rc ev ec = Raise e ->
+  e = ValueError \/ (e = IndexError /\ (shape rv = [] \/ shape rc = [] \/ shape ev = [] \/ shape ec = [])).
+Proof.
+  intros rv rc ev ec e. unfold melody_validate_nd, arr_shape0.
+  destruct (shape rv); cbn [bind]; [intros [= <-]; right; auto|]. destruct (shape rc); cbn [bind]; [intros [= <-]; right; auto|].
+  destruct (negb _); [intros [= <-]; left; reflexivity|].
+  destruct (shape ev); cbn [bind]; [intros [= <-]; right; auto 6|]. destruct (shape ec); cbn [bind]; [intros [= <-]; right; auto 6|].
+  repeat (destruct (_ : bool); [intros [= <-]; left; reflexivity|]). discriminate.
+Qed.
+(* witnesses (each observed on the implementation):
+     transcription.validate(np.array([[0., 1.]]), np.array(3.0), np.array([[0., 1.]]), np.array([220.]))           IndexError
+     transcription_velocity.validate(iv, np.array([220.]), np.array(3.0), iv, np.array([220.]), np.array([1.]))      IndexError
+     melody.validate_voicing(np.array(0.5), np.array(0.5))                                                           IndexError
+     melody.validate(np.array(0.5), np.array([1.]), np.array([1.]), np.array([1.]))                                  IndexError *)
+Definition arr0 (x : Q) : arr := mkarr 0 [] [x].
+Theorem notes_0d_raises_IndexError :
+  transcription_validate_nd (arr2 [(0, 1)]) (arr0 3) (arr2 [(0, 1)]) (arr1 [220]) = Raise IndexError /\ wf_arr (arr0 3) = true.
+Proof. split; vm_compute; reflexivity. Qed.
+Theorem velocities_0d_raises_IndexError :
+  velocity_validate_nd (arr2 [(0, 1)]) (arr1 [220]) (arr0 3) (arr2 [(0, 1)]) (arr1 [220]) (arr1 [1]) = Raise IndexError.
+Proof. vm_compute; reflexivity. Qed.
+Theorem voicing_0d_raises_IndexError : melody_validate_voicing_nd (arr0 (1#2)) (arr0 (1#2)) = Raise IndexError.
+Proof. reflexivity. Qed.
+Theorem melody_0d_raises_IndexError : melody_validate_nd (arr0 (1#2)) (arr1 [1]) (arr1 [1]) (arr1 [1]) = Raise IndexError.
+Proof. reflexivity. Qed.
